@@ -262,6 +262,9 @@ impl ServerInner {
                     let _ = join_all(workers_stop).await;
                 }
 
+                #[cfg(actix_net_verif)]
+                crate::verif::before_accept_join();
+
                 // wait for accept thread stop
                 self.accept_handle
                     .take()
@@ -364,5 +367,21 @@ impl Stream for ServerEventMultiplexer {
         }
 
         this.cmd_rx.poll_recv(cx)
+    }
+}
+
+#[cfg(actix_net_verif)]
+pub(crate) mod verif_server {
+    use super::*;
+
+    /// The command the real `map_signal` produces for a signal number (2 = INT, 15 = TERM, 3 = QUIT).
+    pub(crate) fn command_for_signal(signum: i32) -> Option<ServerCommand> {
+        let kind = match signum {
+            2 => SignalKind::Int,
+            15 => SignalKind::Term,
+            3 => SignalKind::Quit,
+            _ => return None,
+        };
+        Some(ServerInner::map_signal(kind))
     }
 }
